@@ -270,6 +270,14 @@ class Walker:
             return
         name, meth = call.func.value.id, call.func.attr
         cur = p.env.get(name)
+        if meth == "update" and isinstance(cur, (ast.Dict, ast.DictComp)) and len(call.args) == 1 and not call.keywords:
+            # d.update(m)  ==>  {**d, **m}
+            new = subst(call.args[0], p.env)
+            if isinstance(cur, ast.Dict):
+                p.env[name] = ast.Dict(keys=list(cur.keys) + [None], values=list(cur.values) + [new])
+            else:
+                p.env[name] = ast.Dict(keys=[None, None], values=[cur, new])
+            return
         if not isinstance(cur, ast.List) or call.keywords:
             return
         if meth == "append" and len(call.args) == 1:
